@@ -18,6 +18,8 @@ ASSUMPTIONS = ["masks are bool or 0/1 integer numpy arrays of length 4^k; thresh
 
 def mask_array(bits, as_bool, dtype=None):
     import numpy
+    if dtype in ("strided", "readonly"):
+        return gens.pooled(gens.flat_variant(numpy.array(bits, dtype=bool if as_bool else int), dtype), "mask")
     return gens.pooled(numpy.array(bits, dtype=dtype or (bool if as_bool else int)), "mask")
 
 
@@ -148,7 +150,7 @@ def drawn_cases(draw, tier):
         bits = [1] * len(bits)  # the complete mask
     return {"k": k, "bits": "".join(map(str, bits)), "t": t, "bool": draw(st.booleans()), "drop": drop,
             "verbose": k <= 5 and draw(st.integers(0, 4)) == 0,
-            "dtype": draw(st.sampled_from([None, None, None, "uint8", "int8", "int32"]))}
+            "dtype": draw(st.sampled_from([None, None, None, "uint8", "int8", "int32", "strided", "readonly"]))}
 
 
 def evaluate_drawn(case):
